@@ -13,8 +13,8 @@
 // limitations under the License.
 use std::path::PathBuf;
 
-use crate::ast::walk::Visitor;
-use crate::ast::Expression;
+use crate::ast::walk::{Visitor, Walker};
+use crate::ast::{Expression, Statement};
 
 pub struct Rewriter {
     base: PathBuf,
@@ -27,6 +27,16 @@ impl Rewriter {
 }
 
 impl Visitor for Rewriter {
+    fn visit_statement(&mut self, stmt: &mut Statement) {
+        // The walk does not descend into the constraint of a let statement,
+        // but an import or include there is relative to the file as well.
+        if let Statement::Let(def) = stmt {
+            if let Some(constraint) = def.constraint.as_mut() {
+                self.walk_expression(constraint);
+            }
+        }
+    }
+
     fn visit_expression(&mut self, expr: &mut Expression) {
         // Rewrite all paths except for stdlib paths to absolute.
         let main_separator = format!("{}", std::path::MAIN_SEPARATOR);
